@@ -157,8 +157,9 @@ def triplets(ctx, facts, unit):
             cd = canon(flat["decode"], allpush, flat["encode"])
             # the size pass may sum fixed-size elements as count * (sizeof(A)+sizeof(B)): compare it with member order collapsed,
             # encode and decode exactly (order of members matters between those two)
-            cs2 = canon(flat["size"], allpush, None, collapse=True)
-            ce2 = canon(flat["encode"], allpush, flat["encode"], collapse=True)
+            # a size is a sum: compare it with the encode layout as multisets of summands (per nesting level), fixed parts added up
+            cs2 = canon(flat["size"], allpush, None, collapse=True, unordered=True)
+            ce2 = canon(flat["encode"], allpush, flat["encode"], collapse=True, unordered=True)
         except Unfoldable as e:
             raise AnalysisBroken("%s: %s" % (cls, e))
         ok = ce == cd and (cs == ce or cs2 == ce2) and ce != ""
